@@ -157,34 +157,40 @@ is multiplied by it -/
 example : fixSingleTerm [([(0, 3), (1, 3)], 1)] 0 3 2 [([(0, 1), (1, 1)], 1)]
     = .ok (mulOp .qubit [([(0, 3), (1, 3)], 1)] [([(0, 1), (1, 1)], 1)]) := by decide +kernel
 
-/- Full statement: for every tolerance `tol`, whenever `_reduce_terms` succeeds its result acts like
-   the input operator on every state stabilized by all the stabilizers.  Proved below for the loop run
-   with `tol = 0` (the `+=` of `new_terms` never prunes); missing for `tol = 1e-8`: the bookkeeping that
-   no partial sum of the run is non-zero but below the tolerance (`ExactAdd` along the run). -/
-/-- **`reduce_terms_agrees_on_codespace`** (pruning-free arithmetic).  For any operator and any list
+/-- **`reduce_terms_agrees_on_codespace`** at the live tolerance.  For any operator and any list
 of stabilizers with Pauli codes `< 4` — any signs and coefficients, automatic or manual fixed
-positions, commuting or not, independent or not — if the loop of `_reduce_terms` succeeds, the
-reduced operator and the original one act identically on every state `ψ` with `S ψ = ψ` for all
-stabilizers `S` (induction over the stabilizer list: the updated stabilizers still stabilize `ψ`). -/
-theorem reduce_terms_agrees_on_codespace_partial (terms out : Model.Op) (stabs : List Model.Op) (manual : Bool)
-    (fixed fx : List Nat) (stale : Bool) (hv : Sem.ValidOp terms) (hs : ∀ s ∈ stabs, Sem.ValidOp s)
-    (h : reduceTerms 0 terms stabs manual fixed = .ok (out, fx, stale)) (ψ : QS)
+positions, commuting or not, independent or not — if the loop of `_reduce_terms` succeeds and its
+exactness flag is `true` (every `new_terms +=` of this run was in the exact regime: no partial sum
+non-zero but below the tolerance — computed by the same Model run and reported by the driver for
+every generated input), then the reduced operator and the original one act identically on every
+state `ψ` with `S ψ = ψ` for all stabilizers `S` (induction over the stabilizer list: the updated
+stabilizers still stabilize `ψ`). -/
+theorem reduce_terms_agrees_on_codespace (tol : Rat) (terms out : Model.Op) (stabs : List Model.Op)
+    (manual : Bool) (fixed fx : List Nat) (stale : Bool) (hv : Sem.ValidOp terms)
+    (hs : ∀ s ∈ stabs, Sem.ValidOp s)
+    (h : reduceTerms tol terms stabs manual fixed = .ok (out, fx, stale, true)) (ψ : QS)
     (hψ : ∀ s ∈ stabs, evOp s ψ = ψ) : evOp out ψ = evOp terms ψ := by
   rw [reduceTerms_eq] at h
-  cases hf : (List.range stabs.length).foldlM (redBody 0 manual)
-      (terms, (⟨[], stabs, if manual then fixed else [], none, false⟩ : LoopState)) with
-  | error e => simp [hf, bind, Except.bind] at h
+  generalize hf : List.foldlM (redBodyX tol manual) _ (List.range stabs.length) = x at h
+  cases x with
+  | error e => simp [bind, Except.bind] at h
   | ok r =>
-    simp only [hf, bind, Except.bind, Except.ok.injEq, Prod.mk.injEq] at h
-    have hI := foldlM_inv manual ψ (evOp terms) _ _ r hf
+    obtain ⟨⟨r1, r2⟩, rb⟩ := r
+    simp only [bind, Except.bind, Except.ok.injEq, Prod.mk.injEq] at h
+    have hI := (foldlM_inv tol manual ψ (evOp terms) _ _ (r1, r2) true rb hf h.2.2.2).2
       ⟨hv, fun s hsm => ⟨hs s hsm, hψ s hsm⟩, rfl⟩
     rw [← h.1]
     exact hI.2.2
 
-/-- non-vacuity: `Z0 Z1 + Y0 Y1` reduced with the stabilizer `X0 X1` -/
-example : (match reduceTerms 0 [([(0, 3), (1, 3)], 1), ([(0, 2), (1, 2)], 1)] [[([(0, 1), (1, 1)], 1)]] false [] with
-    | .ok r => r.1.length
-    | .error _ => 99) = 1 := by decide +kernel
+/-- at tolerance 0 (no pruning) the exactness flag is always `true` -/
+theorem reduce_terms_exact_of_tol_zero (L : List Model.Op) (acc : Model.Op) : exactSumB 0 acc L = true :=
+  exactSumB_zero L acc
+
+/-- non-vacuity at the live tolerance: `Z0 Z1 + 2·Y0 Y1` reduced with the stabilizer `X0 X1` is exact -/
+example : (match reduceTerms eqTolerance [([(0, 3), (1, 3)], 1), ([(0, 2), (1, 2)], 2)]
+      [[([(0, 1), (1, 1)], 1)]] false [] with
+    | .ok r => r.2.2.2
+    | .error _ => false) = true := by decide +kernel
 
 /-! ### `project_onto_sector` as matrix elements between embedded states
 
@@ -210,16 +216,15 @@ theorem project_term_dropped (qubits sectors : List Nat) (E : Nat → Nat) (hE :
     Sem.termCoef .qubit τ [E s] [E t] = 0 :=
   termCoef_dropped qubits sectors E hE τ hd hxy s t
 
-/- Full statement: for the live tolerance as well.  Proved for the loop run without pruning (`tol = 0`);
-   missing: that no partial sum of `projected_operator +=` is non-zero but below `1e-8`. -/
-/-- **`project_onto_sector_sound`** (pruning-free arithmetic): if `project_onto_sector` succeeds on an
-operator whose terms are Pauli strings on distinct qubits, then
-`⟨t| projected |s⟩ = ⟨E t| operator |E s⟩` for all basis states `s, t` of the small register — the
-matrix elements of the shared Spec (`Spec.applyOp .qubit`). -/
-theorem project_onto_sector_sound_partial (A B : Model.Op) (qubits sectors : List Nat) (E : Nat → Nat)
+/-- **`project_onto_sector_sound`** at the live tolerance: if `project_onto_sector` succeeds on an
+operator whose terms are Pauli strings on distinct qubits and the exactness flag of the run is `true`
+(every `projected_operator +=` in the exact regime; reported by the driver for every generated
+input), then `⟨t| projected |s⟩ = ⟨E t| operator |E s⟩` for all basis states `s, t` of the small
+register — the matrix elements of the shared Spec (`Spec.applyOp .qubit`). -/
+theorem project_onto_sector_sound (tol : Rat) (A B : Model.Op) (qubits sectors : List Nat) (E : Nat → Nat)
     (hE : Emb qubits sectors E)
     (hA : ∀ e ∈ A, Pauli123 e.1 ∧ e.1.Pairwise (fun a b => a.1 ≠ b.1))
-    (h : projectOntoSector 0 A qubits sectors = .ok B) (s t : Nat) :
+    (h : projectOntoSector tol A qubits sectors = .ok (B, true)) (s t : Nat) :
     GV.coeff (applyOp .qubit B [s]) [t] = GV.coeff (applyOp .qubit A [E s]) [E t] := by
   unfold projectOntoSector at h
   split at h
@@ -238,10 +243,11 @@ theorem project_onto_sector_sound_partial (A B : Model.Op) (qubits sectors : Lis
           have h2 : ¬ (v ≠ 0 ∧ v ≠ 1) := fun hv => this ⟨v, hm, by simpa using hv⟩
           simp only [Option.getD_some]
           omega
-      cases h
-      have := project_fold qubits sectors E hE hsec s t A [] hA
-      rw [Sem.den_nil, zero_add] at this
-      exact this
+      simp only [Except.ok.injEq] at h
+      have key := (project_fold tol qubits sectors E hE hsec s t A ([], true) hA (by rw [h])).2
+      rw [h] at key
+      simp only [Sem.den_nil, zero_add] at key
+      exact key
 
 /-- non-vacuity: removing qubit 0 in sector 1 (`E s = 2s + 1`) from `Z0 X1 + X0` -/
 example : Emb [0] [1] (fun s => 2 * s + 1) ∧
